@@ -493,6 +493,7 @@ RULES = [
     ("R-C15-raw-text", 1, "substitution context", rule_raw_text),
     ("R-C15-tokens", 122, "converted source of every model = prescribed token stream (single, double, long double)", _x3.rule_c15_tokens),
     ("R-C15-builds", 61, "single-precision OpenCL source of every model parses and defines the same functions", _x3.rule_c15_builds),
+    ("R-C15-intdiv", 120, "no truncating division of two integer literals in the double- and single-precision units (a literal the converter cannot tag)", _x3.make_intdiv_rule(("dll", "opencl-f32"))),
     ("R-C15-dispatch", 25, "dtype dispatch tables agree", rule_dispatch),
     ("R-C15-cancel", 100, "no 1 - cos / 1 - exp difference in models declared single-safe", _x3.make_cstate_rule("R-C15-cancel")),
     ("R-C15-declared", 15, "models declared unsafe for single precision stay declared unsafe", _x3.rule_c15_declared),
